@@ -227,11 +227,9 @@ func (x *c03ctx) panicCondition(p *ssa.Panic) (inner []c03atom, atoms []c03atom)
 // `if !known(x)`) may have been reviewed under the branch fact the helper decides it by (the guard as it reads when the
 // helper is inlined): that name is used when a reviewed entry of owner carries it and none carries the literal one.
 func (x *c03ctx) k1desc(owner *ssa.Function, inner []c03atom) string {
-	raw := c03descOf(inner)
-	inl := c03descOf(x.e.inlineInner(inner, 0))
-	if inl == raw {
-		return raw
-	}
+	// the alternative names of the guard (helper inlined, predicate replaced by what its result implies, comparisons in
+	// normal form): the first one a reviewed entry of owner carries is used, the literal one otherwise
+	names := x.h5guardNames(inner)
 	has := func(desc string) bool {
 		prefix := core.FuncKey(owner) + ": panic when " + desc + " <- "
 		for k := range c03reviewedK1 {
@@ -241,10 +239,26 @@ func (x *c03ctx) k1desc(owner *ssa.Function, inner []c03atom) string {
 		}
 		return false
 	}
-	if !has(raw) && has(inl) {
-		return inl
+	for _, n := range names {
+		if has(n) {
+			return n
+		}
 	}
-	return raw
+	// no reviewed entry under owner's own name: owner may have been renamed (settled by shape at flush): the first
+	// name that has the shape of a reviewed entry
+	var shapes []string
+	for k := range c03reviewedK1 {
+		shapes = append(shapes, c03shape(k))
+	}
+	for _, n := range names {
+		sh := c03shape(core.FuncKey(owner) + ": panic when " + n + " <- ")
+		for _, ks := range shapes {
+			if strings.HasPrefix(ks, sh) {
+				return n
+			}
+		}
+	}
+	return names[0]
 }
 
 func c03descOf(inner []c03atom) string {
@@ -2326,7 +2340,7 @@ func (x *c03ctx) runK7() {
 		c.Unresolved("K7", "template expansion function", "no load-set function re-enters a named declaration recursively (validateTemplate expected)")
 	}
 	c.Floor("K7", 1, "validateTemplate -> validateDecl recursion")
-	c03StackThreaded(c)
+	h5StackThreaded(c)
 	// K8 bounded Reads: every error a hierarchical reader's Read can return is terminal (NIL, io.EOF or the reader's own
 	// fatal type) — a continuable error returned WITHOUT consuming the offending unit would make every later Read fail
 	// the same way (unbounded per-record failures on a finite input). Shares the error-class analysis with C05 R05c.
